@@ -7,7 +7,7 @@ PROPERTY = 'C12'
 LEVEL = 'exploration'
 RULE = ('trees built through the Tree API with child lists in random order; '
         'complete sweep of all unordered tree shapes (= all root '
-        'configurations) over tokens 1..n, n <= 5 quick / 6 thorough, plus '
+        'configurations) over tokens 1..n, n <= 5 quick / 7 thorough, plus '
         'random trees to 40 tokens whose root has 1..9 children mixing tokens '
         'and (dis)continuous constituents, produced by detaching random '
         'tokens/constituents to the root (material inside gaps, consecutive '
@@ -168,7 +168,7 @@ def run_tree(ctx, spec, rng):
 def shard(ctx):
     install(ctx.R)
     pools = gen.Pools()
-    nmax = ctx.pick(5, 6)
+    nmax = ctx.pick(5, 7)
     i = 0
     for n in range(1, nmax + 1):
         for shape, used in gen.all_shapes(list(range(1, n + 1)), 1 if n <= 5 else 0):
@@ -177,7 +177,7 @@ def shard(ctx):
                 rng = ctx.rng('sweep', i)
                 run_tree(ctx, gen.shape_to_spec(shape, rng, pools), rng)
                 ctx.stratum('sweep')
-    for i in ctx.indices(ctx.pick(6000, 200000)):
+    for i in ctx.indices(ctx.pick(6000, 1500000)):
         rng = ctx.rng('rand', i)
         n = rng.choice([3, 4, 5, 6, 8, 10, 15]) if rng.random() < 0.7 \
             else rng.randint(2, 40)
